@@ -66,3 +66,7 @@ package clientgroups
 //@   loop 3 invariant len(pc.clients) == len(probeResult) && 0 <= bestIndex && (rangeindex < 0 ==> bestIndex == 0) && (bestIndex > 0 ==> bestIndex <= rangeindex) && rangeindex < len(probeResult)
 //@   loop 3 exit (len(probeResult) > 0 ==> 0 <= bestIndex && bestIndex < len(probeResult)) && (len(probeResult) == 0 ==> bestIndex == 0)
 //@   callsite Store: clientIndex == bestIndex && 0 <= clientIndex && clientIndex < len(pc.clients)
+
+// Built by (empty) contract where the service manager is verified.
+//@ func (*ClientGroupConfig).AddClientGroup
+//@   noinline
